@@ -10,7 +10,7 @@
    The comment of a declaration on line L is the trailing comment stored for L when its text is non-empty, else the
    block stored for L-1, lines joined by "\n" - bytes unchanged.  (`--[[ ]]` comments are outside this description.) *)
 From Coq Require Import List NArith ZArith Bool.
-From LH Require Import Base.Bytes Model.Lexer.
+From LH Require Import Base.Bytes Base.Res Model.Lexer Model.Ast Model.Comments.
 Import ListNotations.
 Local Open Scope N_scope.
 
@@ -134,6 +134,86 @@ Definition spec_comment (T : list tabline) (L : Z) : list N :=
   | _ => join_nl_texts (block_up T (length T) (L - 1))
   end.
 
+(* ------------------------------------------------------------------ the layout of a whole file: gap, token, gap, ...
+   A file is read as  gap_0 token_1 gap_1 ... token_n gap_n.  The gaps are cut out by the structural parser below
+   (white space, optional `--text` up to the line end, LF / CRLF line breaks; nothing else); the extent of a token, and
+   the line count across a token that spans several lines, come from `scan_token` of the shared lexer model
+   (Model/Lexer.v, the token scanner validated for C03 / C04). No use of the lexer's comment bookkeeping. *)
+Fixpoint span_white (l : list N) : list N * list N :=
+  match l with
+  | c :: t => if is_white c then let '(a, b) := span_white t in (c :: a, b) else ([], l)
+  | [] => ([], [])
+  end.
+Fixpoint span_line (l : list N) : list N * list N :=             (* up to the first line-break byte *)
+  match l with
+  | c :: t => if is_newline c then ([], l) else let '(a, b) := span_line t in (c :: a, b)
+  | [] => ([], [])
+  end.
+Definition parse_gline (l : list N) : gline * list N :=
+  let '(ind, r) := span_white l in
+  match r with
+  | 45 :: 45 :: r1 => let '(t, r2) := span_line r1 in (mkGl ind (Some t), r2)
+  | _ => (mkGl ind None, r)
+  end.
+Fixpoint parse_rest (fuel : nat) (l : list N) : list (nlk * gline) * list N :=
+  match fuel with
+  | O => ([], l)
+  | S f =>
+    match l with
+    | 13 :: 10 :: r => let '(gl, r1) := parse_gline r in let '(rest, tl) := parse_rest f r1 in ((NlCRLF, gl) :: rest, tl)
+    | 10 :: r => let '(gl, r1) := parse_gline r in let '(rest, tl) := parse_rest f r1 in ((NlLF, gl) :: rest, tl)
+    | _ => ([], l)
+    end
+  end.
+(* the gap at the head of l and what follows it; always  render_gap g ++ tail = l  (Proofs/CommentsFile.v) *)
+Definition parse_gap (l : list N) : gap * list N :=
+  let '(g0, r) := parse_gline l in
+  let '(rest, tl) := parse_rest (length r) r in (mkGap g0 rest, tl).
+
+Definition last_gline (g : gap) : gline := last (map snd (g_rest g)) (g_first g).
+
+(* scanner state behind a gap: the gap's bytes consumed, one line per line break, line start = start of the last line *)
+Definition after_gap (s : lst) (g : gap) (tail : list N) : lst :=
+  let p' := (pos s + Z.of_nat (length (render_gap g)))%Z in
+  mkLst tail (line s + Z.of_nat (length (g_rest g)))%Z
+        (match g_rest g with [] => lsp s | _ => p' - Z.of_nat (length (render_gline (last_gline g))) end)%Z p'.
+
+(* one gap of the file: line the previous token ends on (0: none), line and column the gap starts at, the gap *)
+Record gaprec := mkGr { gr_p : Z; gr_L : Z; gr_c : Z; gr_g : gap }.
+
+Section FileLayout.
+  Variable gbk_runes : list N -> Z.
+
+  Fixpoint file_gaps_f (fuel : nat) (p : Z) (s : lst) : option (list gaprec) :=
+    match fuel with
+    | O => None
+    | S f =>
+      let '(g, tail) := parse_gap (chunk s) in
+      if gap_ok g tail then
+        let r := mkGr p (line s) (pos s - lsp s)%Z g in
+        match tail with
+        | [] => Some [r]
+        | _ => let '(t, s2, _) := scan_token gbk_runes (after_gap s g tail) in
+               match file_gaps_f f (tline t) s2 with Some rs => Some (r :: rs) | None => None end
+        end
+      else None
+    end.
+
+  (* None: some gap of the file is not structured (gap_ok fails: `--[` comment, lone CR, LF CR) *)
+  Definition file_gaps (bs : list N) : option (list gaprec) :=
+    file_gaps_f (S (S (length bs))) 0 (skip_first_line bs).
+
+  (* the comment lines of the file *)
+  Definition table_of_gaps (rs : list gaprec) : list tabline :=
+    flat_map (fun r => gap_table (gr_p r) (gr_L r) (gr_g r)) rs.
+  Definition file_table (bs : list N) : list tabline :=
+    match file_gaps bs with Some rs => table_of_gaps rs | None => [] end.
+End FileLayout.
+
+(* the class of files of C13_comment_attach_file: every gap is structured and the parser reads the whole file *)
+Definition file_class (gbk_runes : list N -> Z) (classify : list N -> numcls) (bs : list N) : bool :=
+  match file_gaps gbk_runes bs with Some _ => true | None => false end && parser_reads_all gbk_runes classify bs.
+
 (* ------------------------------------------------------------------ attachment, on the recorded entries *)
 (* the same rule read off a list of entries (trailing entries and blocks, as produced by spec_entries) *)
 Definition is_trailing_for (L : Z) (e : Z * cinfo) : bool := negb (ci_head (snd e)) && (fst e =? L)%Z.
@@ -146,15 +226,12 @@ Definition spec_attach (es : list (Z * cinfo)) (L : Z) : list N :=
   | _ => match find (is_block_ending (L - 1)) es with Some e => entry_text e | None => [] end
   end.
 
-(* guard: line numbers are positive, no two entries share a key, and no block of two or more lines starts with an
-   empty comment line *)
+(* guard: line numbers are positive and no two entries share a key (for the entries of a whole file both are PROVED
+   from the layout of the file: Proofs/CommentsFile.v) *)
 Fixpoint keys_nodup (es : list (Z * cinfo)) : bool :=
   match es with
   | [] => true
   | e :: t => negb (existsb (fun x => (fst x =? fst e)%Z) t) && keys_nodup t
   end.
 Definition keys_pos (es : list (Z * cinfo)) : bool := forallb (fun e => (0 <? fst e)%Z) es.
-Definition leading_empty (e : Z * cinfo) : bool :=
-  match ci_lines (snd e) with c :: _ :: _ => match cl_str c with [] => true | _ => false end | _ => false end.
-Definition attach_guard (es : list (Z * cinfo)) : bool :=
-  keys_pos es && keys_nodup es && negb (existsb leading_empty es).
+Definition attach_guard (es : list (Z * cinfo)) : bool := keys_pos es && keys_nodup es.
